@@ -7,7 +7,7 @@ from ..index import AnalysisError, dotted, src, walk_no_nested, names_in
 from ..cfg import CFG, const_env_step, UNK, eval3
 from ..consteval import run_function, Unfoldable, fold, TOP
 from ..domains import linform, Lin, check_pred
-from ..util import node_calls, own_expr, pred_is, eval_local, final_assignments, last_name, explore, mk_atoms, reach_conds
+from ..util import node_calls, own_expr, pred_is, eval_local, final_assignments, last_name, explore, mk_atoms, reach_conds, dict_emission, string_transform_chain
 from .slots import TAPS, MOLECULE, SEQUTILS
 
 
@@ -20,8 +20,26 @@ def bismark(ctxt):
                        '"methylated" table is its upper-case image')
 def r1(ctx):
     f = ctx.fn(TAPS, 'TAPS.__init__')
-    stmts = [s for s in f.body if 'context_mapping' in src(s) and isinstance(s, (ast.Assign, ast.For))]
-    if len(stmts) < 3:
+    # backward slice of the constructor on self.context_mapping: the statements that mention it plus (transitively) the statements
+    # that define / fill the local names those statements read
+    def stores(s_):
+        out = set()
+        for n in ast.walk(s_):
+            if isinstance(n, ast.Name) and isinstance(n.ctx, ast.Store):
+                out.add(n.id)
+            elif isinstance(n, ast.Subscript) and isinstance(n.ctx, ast.Store) and isinstance(n.value, ast.Name):
+                out.add(n.value.id)
+        return out
+    params = {a.arg for a in f.args.args}
+    chosen = {i for i, s_ in enumerate(f.body) if 'self.context_mapping' in src(s_) and isinstance(s_, (ast.Assign, ast.For, ast.AugAssign))}
+    while True:
+        need = {n.id for i in chosen for n in ast.walk(f.body[i]) if isinstance(n, ast.Name) and isinstance(n.ctx, ast.Load)} - params
+        more = {i for i, s_ in enumerate(f.body) if i not in chosen and isinstance(s_, (ast.Assign, ast.For, ast.AugAssign)) and i < max(chosen, default=0) and stores(s_) & need}
+        if not more:
+            break
+        chosen |= more
+    stmts = [f.body[i] for i in sorted(chosen)]
+    if not stmts:
         raise AnalysisError('TAPS.__init__: context table construction not found')
     fake = ast.FunctionDef(name='table', args=ast.arguments(posonlyargs=[], args=[], vararg=None, kwonlyargs=[], kw_defaults=[], kwarg=None, defaults=[]),
                            body=stmts + [ast.Return(value=ast.Attribute(value=ast.Name(id='self', ctx=ast.Load()), attr='context_mapping', ctx=ast.Load()))], decorator_list=[])
@@ -135,17 +153,59 @@ def r3(ctx):
     ctx.emit('C14-R3', okc, TAPS, fetches['C'][2] if 'C' in fetches else f, f'C context window [{fetches["C"][0]}, {fetches["C"][1]})' if 'C' in fetches else 'C window not found', key='window:C')
     ctx.emit('C14-R3', okg, TAPS, fetches['G'][2] if 'G' in fetches else f, (f'G context window [{fetches["G"][0]}, {fetches["G"][1]})' if 'G' in fetches else 'G window not found') +
              ('' if okg else ' is not the mirror [p-2, p+1) of the C window'), key='window:G', what='position_to_context: G-strand window is not [p-2, p+1)')
-    # complement + reverse
-    gasg = [s for s in walk_no_nested(f) if isinstance(s, ast.Assign) and src(s.targets[0]) == 'context' and 'translate' in src(s.value)]
-    ok = len(gasg) == 1 and src(gasg[0].value).endswith('[::-1]') and 'complement_trans' in src(gasg[0].value)
-    ctx.emit('C14-R3', ok, TAPS, gasg[0] if gasg else f, f'G context = `{src(gasg[0].value) if gasg else None}` (complemented and reversed)', key='revcomp')
-    m = ctx.ix.module(TAPS)
-    ct = [s for s in m.tree.body if isinstance(s, ast.Assign) and src(s.targets[0]) == 'complement_trans']
-    tab = fold(ct[0].value) if ct else TOP
-    ok = isinstance(tab, dict) and {chr(k): chr(v) for k, v in tab.items()} == {'A': 'T', 'T': 'A', 'G': 'C', 'C': 'G'}
-    ctx.emit('C14-R3', ok, TAPS, ct[0] if ct else None, f'complement table {({chr(k): chr(v) for k, v in tab.items()} if isinstance(tab, dict) else tab)} is the involution A<->T, C<->G', key='complement-involution')
-    whole = src(f)
-    up = bool(fetches) and all((src(c) + '.upper()') in whole for a, (lo, hi, c) in fetches.items())
+    # complement + reverse: the G arm's context is the fetched window upper-cased, complemented once (A<->T, C<->G) and reversed once;
+    # the C arm's context is the fetched window upper-cased only.  Decided on the chain of string operations between the fetch and the
+    # name that is looked up in the table, wherever those operations are written (inline, local temporaries, repository helpers).
+    lookup = [c for c in walk_no_nested(f) if isinstance(c, ast.Call) and isinstance(c.func, ast.Attribute) and c.func.attr == 'get' and 'context_mapping' in src(c.func.value) and c.args]
+    cvar = lookup[0].args[0].id if lookup and isinstance(lookup[0].args[0], ast.Name) else 'context'
+    chains = {}
+    for arm, (lo, hi, c) in fetches.items():
+        asg = [s_ for s_ in walk_no_nested(f) if isinstance(s_, ast.Assign) and src(s_.targets[0]) == cvar and any(n is c for n in ast.walk(s_))]
+        if not asg:
+            # the fetch feeds a temporary; find the assignment of the context variable under the same arm
+            asg = [s_ for s_ in walk_no_nested(f) if isinstance(s_, ast.Assign) and src(s_.targets[0]) == cvar and not isinstance(s_.value, ast.Constant)
+                   and _arm_consistent(reach_conds(f.body, s_) or [], arm)]
+        if len(asg) == 1:
+            source, ops = string_transform_chain(ctx.ix, TAPS, f, asg[0].value)
+            chains[arm] = (source, ops, asg[0])
+    COMP = {'A': 'T', 'T': 'A', 'G': 'C', 'C': 'G'}
+
+    def summary(ops):
+        """(complement parity, reverse parity, upper-cased at the end) or None when an operation is not understood"""
+        comp = rev = 0
+        upper = False
+        for o in ops:
+            if o == 'upper':
+                upper = True
+            elif o == 'lower':
+                upper = False
+            elif o == 'reverse':
+                rev ^= 1
+            elif isinstance(o, tuple) and o[0] == 'translate':
+                tab = o[1]
+                if not isinstance(tab, dict):
+                    return None
+                t_ = {chr(k): (chr(v) if isinstance(v, int) else v) for k, v in tab.items()}
+                if all(t_.get(k) == v for k, v in COMP.items()):
+                    comp ^= 1
+                elif all(t_.get(k, k) == k for k in COMP):
+                    pass
+                else:
+                    return None
+                # case is preserved by a table that maps upper to upper
+            else:
+                return None
+        return comp, rev, upper
+    sg = summary(chains['G'][1]) if 'G' in chains else None
+    sc = summary(chains['C'][1]) if 'C' in chains else None
+    okg2 = sg == (1, 1, True) and 'G' in fetches and chains['G'][0] is fetches['G'][2]
+    okc2 = sc == (0, 0, True) and 'C' in fetches and chains['C'][0] is fetches['C'][2]
+    ctx.emit('C14-R3', okg2, TAPS, chains['G'][2] if 'G' in chains else f, f'G context = fetched window through {chains["G"][1] if "G" in chains else None}: complemented once and reversed once (got parity {sg})', key='revcomp')
+    ctx.emit('C14-R3', okc2, TAPS, chains['C'][2] if 'C' in chains else f, f'C context = fetched window through {[o if isinstance(o, str) else o[0] for o in chains["C"][1]] if "C" in chains else None}: neither complemented nor reversed', key='c-context-plain')
+    tabs = [o[1] for arm in chains for o in chains[arm][1] if isinstance(o, tuple)]
+    ok = bool(tabs) and all(isinstance(t_, dict) and all(chr(t_.get(ord(k), 0)) == v for k, v in COMP.items()) for t_ in tabs)
+    ctx.emit('C14-R3', ok, TAPS, chains['G'][2] if 'G' in chains else f, 'complement table used is the involution A<->T, C<->G', key='complement-involution')
+    up = sg is not None and sc is not None and sg[2] and sc[2]
     ctx.emit('C14-R3', up, TAPS, f, 'reference context is upper-cased before the table lookup', key='context-upper', nontrivial=False)
 
 
@@ -162,20 +222,87 @@ def r4(ctx):
     want = {'total_methylated_tag': {'Z', 'X', 'H'}, 'total_unmethylated_tag': {'z', 'x', 'h'}, 'total_methylated_CPG_tag': {'Z'}, 'total_unmethylated_CPG_tag': {'z'},
             'total_methylated_CHG_tag': {'X'}, 'total_unmethylated_CHG_tag': {'x'}, 'total_methylated_CHH_tag': {'H'}, 'total_unmethylated_CHH_tag': {'h'}}
     got = {}
+    counters = set()
     for c in walk_no_nested(f):
         if isinstance(c, ast.Call) and isinstance(c.func, ast.Attribute) and c.func.attr == 'set_tag' and len(c.args) == 2 and isinstance(c.args[0], ast.Name) and c.args[0].id in want:
-            letters = {n.slice.value for n in ast.walk(c.args[1]) if isinstance(n, ast.Subscript) and src(n.value) == 'molecule_XM' and isinstance(n.slice, ast.Constant)}
-            plus_only = all(isinstance(b.op, ast.Add) for b in ast.walk(c.args[1]) if isinstance(b, ast.BinOp))
+            subs = [n for n in ast.walk(c.args[1]) if isinstance(n, ast.Subscript) and isinstance(n.value, ast.Name) and isinstance(n.slice, ast.Constant)]
+            counters |= {n.value.id for n in subs}
+            letters = {n.slice.value for n in subs}
+            # the value is a sum of exactly these subscripts (nothing else enters it)
+            terms = []
+
+            def flat(e):
+                if isinstance(e, ast.BinOp) and isinstance(e.op, ast.Add):
+                    flat(e.left), flat(e.right)
+                else:
+                    terms.append(e)
+            flat(c.args[1])
+            plus_only = all(t in subs for t in terms) and len(terms) == len(letters)
+            if c.args[0].id in got:
+                letters, plus_only = None, False        # written twice
             got[c.args[0].id] = (letters, plus_only)
     bad = [k for k in want if got.get(k, (None, False))[0] != want[k] or not got[k][1]]
-    ctx.emit('C14-R4', not bad, MOLECULE, f, 'count tags sum exactly the letters of their class' if not bad else f'mis-wired count tags: { {k: got.get(k) for k in bad} }', key='tag-wiring',
+    ctx.emit('C14-R4', not bad and len(counters) == 1, MOLECULE, f, 'count tags sum exactly the letters of their class' if not bad else f'mis-wired count tags: { {k: got.get(k) for k in bad} }', key='tag-wiring',
              what='set_methylation_call_tags: a count tag sums the wrong call letters')
-    xm = [s for s in walk_no_nested(f) if isinstance(s, ast.Assign) and src(s.targets[0]) == 'molecule_XM']
-    ok = len(xm) == 1 and "get('context'" in src(xm[0].value).replace('\n', '').replace(' ', '').replace('"', "'") .replace("get('context','.')", "get('context'") and 'self.methylation_call_dict.values()' in src(xm[0].value)
+    cname = next(iter(counters)) if len(counters) == 1 else None
+    xm = [s_ for s_ in walk_no_nested(f) if isinstance(s_, ast.Assign) and len(s_.targets) == 1 and isinstance(s_.targets[0], ast.Name) and s_.targets[0].id == cname]
+    calldicts = {'self.methylation_call_dict', f.args.args[1].arg if len(f.args.args) > 1 else '?'}
+
+    def context_lookup(e, of):
+        """e is `<of>.get('context', '.')`"""
+        return isinstance(e, ast.Call) and isinstance(e.func, ast.Attribute) and e.func.attr == 'get' and of(e.func.value) and len(e.args) == 2 \
+            and all(isinstance(a_, ast.Constant) for a_ in e.args) and [a_.value for a_ in e.args] == ['context', '.'] and not e.keywords
+
+    def comp_of(e):
+        while isinstance(e, ast.Call) and isinstance(e.func, ast.Name) and e.func.id in ('list', 'tuple', 'iter') and len(e.args) == 1:
+            e = e.args[0]
+        return e if isinstance(e, (ast.ListComp, ast.GeneratorExp)) and len(e.generators) == 1 else None
+    ok = False
+    if len(xm) == 1 and isinstance(xm[0].value, ast.Call) and last_name(src(xm[0].value.func)) == 'Counter' and len(xm[0].value.args) == 1:
+        cp = comp_of(xm[0].value.args[0])
+        if cp is not None:
+            g_ = cp.generators[0]
+            ok = not g_.ifs and isinstance(g_.target, ast.Name) and isinstance(g_.iter, ast.Call) and not g_.iter.args and isinstance(g_.iter.func, ast.Attribute) and g_.iter.func.attr == 'values' \
+                and src(g_.iter.func.value) in calldicts and context_lookup(cp.elt, lambda v: isinstance(v, ast.Name) and v.id == g_.target.id)
     ctx.emit('C14-R4', ok, MOLECULE, xm[0] if xm else f, 'molecule totals are counted over the call dictionary of the molecule (one entry per called position)', key='totals-source')
-    cs = [s for s in walk_no_nested(f) if isinstance(s, ast.Assign) and src(s.targets[0]) == 'bis_met_call_string']
-    ok = len(cs) == 1 and 'get_aligned_pairs(matches_only=True)' in src(cs[0].value) and "''.join" in src(cs[0].value) and '(read.reference_name, rpos)' in src(cs[0].value)
-    ctx.emit('C14-R4', ok, MOLECULE, cs[0] if cs else f, 'call string: one symbol ("." when uncalled) per aligned pair of the read, looked up by (contig, reference position)', key='call-string')
+    # the call string written to the call tag
+    cs_calls = [c for c in walk_no_nested(f) if isinstance(c, ast.Call) and isinstance(c.func, ast.Attribute) and c.func.attr == 'set_tag' and len(c.args) == 2 and src(c.args[0]) == 'bismark_call_tag']
+    ok = False
+    anchor = f
+    if len(cs_calls) == 1:
+        v = cs_calls[0].args[1]
+        rd = src(cs_calls[0].func.value)
+        if isinstance(v, ast.Name):
+            ds = [s_ for s_ in walk_no_nested(f) if isinstance(s_, ast.Assign) and len(s_.targets) == 1 and isinstance(s_.targets[0], ast.Name) and s_.targets[0].id == v.id]
+            v = ds[0].value if len(ds) == 1 else None
+            anchor = ds[0] if len(ds) == 1 else f
+        if isinstance(v, ast.Call) and isinstance(v.func, ast.Attribute) and v.func.attr == 'join' and isinstance(v.func.value, ast.Constant) and v.func.value.value == '' and len(v.args) == 1:
+            cp = comp_of(v.args[0])
+            if cp is not None:
+                g_ = cp.generators[0]
+                tnames = [e.id for e in g_.target.elts] if isinstance(g_.target, ast.Tuple) and all(isinstance(e, ast.Name) for e in g_.target.elts) else []
+                pairs = isinstance(g_.iter, ast.Call) and src(g_.iter.func) == f'{rd}.get_aligned_pairs' and not g_.iter.args \
+                    and {k.arg: src(k.value) for k in g_.iter.keywords} == {'matches_only': 'True'}
+                # filters may only drop None positions (there are none with matches_only)
+                only_none = all(_drops_only_none(t, tnames) for t in g_.ifs)
+
+                def is_site(e):
+                    return isinstance(e, ast.Call) and isinstance(e.func, ast.Attribute) and e.func.attr == 'get' and src(e.func.value) in calldicts and len(e.args) == 2 \
+                        and src(e.args[0]) == f'({rd}.reference_name, {tnames[1]})' and isinstance(e.args[1], ast.Dict) and not e.args[1].keys
+                ok = bool(pairs) and len(tnames) == 2 and only_none and context_lookup(cp.elt, is_site)
+    ctx.emit('C14-R4', ok, MOLECULE, anchor, 'call string: one symbol ("." when uncalled) per aligned pair of the read, looked up by (contig, reference position)', key='call-string')
+
+
+def _arm_consistent(conds, arm):
+    vals = [(eval3(t_, {'ref_base': arm}), pol) for t_, pol in conds if 'ref_base' in names_in(t_)]
+    return bool(vals) and all(v is not UNK and bool(v) == pol for v, pol in vals)
+
+
+def _drops_only_none(test, names):
+    """the comprehension filter is a conjunction of `<target name> is not None` tests"""
+    parts = test.values if isinstance(test, ast.BoolOp) and isinstance(test.op, ast.And) else [test]
+    return all(isinstance(p_, ast.Compare) and len(p_.ops) == 1 and isinstance(p_.ops[0], ast.IsNot) and isinstance(p_.left, ast.Name) and p_.left.id in names
+               and isinstance(p_.comparators[0], ast.Constant) and p_.comparators[0].value is None for p_ in parts)
 
 
 @rule('C14', 'C14-R5', 'only bases inside the mate-overlap-safe span are called: the dove-safe window is [left mate start + d, right mate end - d - 1] '
@@ -205,18 +332,12 @@ def r5(ctx):
                  ('' if ok else f' (expected [{ws}, {we}] inclusive: the last base of the right mate is reference_end - 1)'), key=f'dove-window:{kk}',
                  what='get_consensus_dictionaries: dove-safe window end is not reference_end - distance - 1 in one orientation')
     g = ctx.fn(SEQUTILS, 'read_to_consensus_dict')
-    comp = [c for c in walk_no_nested(g) if isinstance(c, ast.DictComp)]
+    em = dict_emission(g)
     ok = False
-    if comp:
-        conds = [i for gen in comp[0].generators for i in gen.ifs]
-        txt = ' '.join(src(c) for c in conds)
-        t = None
-        for c in conds:
-            for n_ in ast.walk(c):
-                if isinstance(n_, ast.BoolOp) and isinstance(n_.op, ast.And):
-                    t = n_
-                    break
-        window = [v for v in (t.values if t is not None else conds) if names_in(v) & {'start', 'end'} and 'refpos' in names_in(v)]
+    comp = [em['node']] if em else []
+    if em:
+        conds = em['conds']
+        window = [v for v in conds if names_in(v) & {'start', 'end'} and 'refpos' in names_in(v)]
         if len(window) == 2:
             pred = ast.BoolOp(op=ast.And(), values=window)
             ncase, bad = check_pred(pred, lambda e: (e['ns'] or e['p'] >= e['s']) and (e['ne'] or e['p'] <= e['e']), symbols=['p', 's', 'e'],
